@@ -564,3 +564,11 @@ def check(model, rep):
     if fk_m is None:
         raise AnalysisError('anchor vanished: Arm.FK')
     fk_core(rep, 'R13.5', fk_m)
+    # ---------------------------------------------------------------- R13.6
+    # the loader accumulates joint poses as tm objects built from matrices and re-exponentiates their axis-angle part to rotate the joint
+    # axes into space: exp / log of rotations (and the FK kernel) must be the pinned reference's
+    from .c02 import closure_obligations
+    tmc = model.cls('basic_robotics.general.faser_transform', 'tm')
+    shared = closure_obligations(model, rep, 'R13.6', [load, fk_m] + list(tmc.methods.values()),
+                                 'the URDF loader (joint poses kept as tm objects: exp / log of rotations, axis rotation) and Arm.FK')
+    rep.floor('R13.6', 'shared primitives under the loader', len(shared), 6)
